@@ -257,7 +257,7 @@ func new(input OmegaInput) (output OmegaOutput) {
 	}
 
 	// otherwise if f ≠ 0 and x_s ≠ (x_u)_m
-	if f != 0 && input.Addition.ResultContextX.ServiceID != input.Addition.ResultContextY.PartialState.Bless {
+	if f != 0 && input.Addition.ResultContextX.ServiceID != input.Addition.ResultContextX.PartialState.Bless {
 		input.VM.Registers[7] = HUH
 		return OmegaOutput{
 			ExitReason: ExitContinue,
